@@ -7,7 +7,9 @@
    of the same step (a run that is shorter is padded with k = "none").
 
      init
-     step  k  r = <<r1, r2, r3, r4>>
+     step  k  tab  r = <<r1, r2, r3, r4>>
+              tab  = the strings of the line (lossless dictionary coding: obs and mdl hold indices
+                     into it; Dec decodes before anything is compared)
               r[i] = [k, raised, obs, mdl]
                  k       kind of step: api / ev / tx / pkt / gt / rx / timer / h3
                  raised  "" or "ExceptionType@innermost aioquic function"
@@ -25,7 +27,7 @@
                            timer endpoint, deadline that fired
                  mdl     internal fields read next to it (congestion window, bytes in
                          flight, state name, handshake flags ...): outside the statement
-     end   f = <<f1, f2, f3, f4>>   final state projection of both endpoints (explicit fields, then
+     end   tab  f = <<f1, f2, f3, f4>>   (indices into tab) final state projection of both endpoints (explicit fields, then
                                     one digest per instance attribute of a walk over vars(connection))
            q = accounts, one per (mode with qlog on, endpoint):
                [who, jsonOk, strictJson, countable, sentRecords, sent, recvRecords, processed,
@@ -36,20 +38,27 @@
                  recvRecords    packet_received records per packet type <<initial, handshake, 0rtt, 1rtt>>
                  processed      packets the endpoint handed to _payload_received, per epoch (harness wrapper)
 
+           kl = one per (mode with the secrets log on, endpoint): [who, written, installed]: "label secret" of
+                every line the endpoint wrote / of every secret the harness saw it install (C03 judges the
+                secrets log; here it only shows that the log under test was really written)
+
    Statement clauses come first; "model:" clauses compare what the statement does
    not speak about. *)
 EXTENDS LogPair, TraceBase
 
 Modes == <<"off", "qlog", "keys", "both">>
 
+Dec(tab, ix) == [i \in DOMAIN ix |-> tab[ix[i]]]
+Rec(e, i) == [k |-> e.r[i].k, raised |-> e.r[i].raised, obs |-> Dec(e.tab, e.r[i].obs), mdl |-> Dec(e.tab, e.r[i].mdl)]
+
 ClStep(e) ==
-  LET off == e.r[1] IN
-  [i \in 1..3 |-> <<"logging-raises:" \o Modes[i + 1], TotalStep(off, e.r[i + 1])>>] \o
-  [i \in 1..3 |-> <<"different-" \o e.k \o ":" \o Modes[i + 1], SameStep(off, e.r[i + 1])>>] \o
-  [i \in 1..3 |-> <<"model:different-internal-state:" \o Modes[i + 1], off.mdl = e.r[i + 1].mdl>>]
+  LET off == Rec(e, 1) IN
+  [i \in 1..3 |-> <<"logging-raises:" \o Modes[i + 1], TotalStep(off, Rec(e, i + 1))>>] \o
+  [i \in 1..3 |-> <<"different-" \o e.k \o ":" \o Modes[i + 1], SameStep(off, Rec(e, i + 1))>>] \o
+  [i \in 1..3 |-> <<"model:different-internal-state:" \o Modes[i + 1], off.mdl = Rec(e, i + 1).mdl>>]
 
 ClEnd(e) ==
-  [i \in 1..3 |-> <<"different-final-state:" \o Modes[i + 1], SameFinal(e.f[1], e.f[i + 1])>>] \o
+  [i \in 1..3 |-> <<"different-final-state:" \o Modes[i + 1], SameFinal(Dec(e.tab, e.f[1]), Dec(e.tab, e.f[i + 1]))>>] \o
   [j \in DOMAIN e.q |-> <<"qlog-not-serialisable:" \o e.q[j].who, e.q[j].jsonOk>>] \o
   [j \in DOMAIN e.q |-> <<"packet-sent-record-count:" \o e.q[j].who, e.q[j].countable => SentCount(e.q[j])>>] \o
   [j \in DOMAIN e.q |-> <<"packet-received-record-count:" \o e.q[j].who, RecvCount(e.q[j])>>] \o
@@ -57,7 +66,8 @@ ClEnd(e) ==
   [j \in DOMAIN e.q |-> <<"accounting:" \o e.q[j].who, e.q[j].countable => Accounting(e.q[j])>>] \o
   [j \in DOMAIN e.q |-> <<"model:qlog-not-strict-json:" \o e.q[j].who, e.q[j].strictJson>>] \o
   [j \in DOMAIN e.q |-> <<"model:packet-sent-record-length:" \o e.q[j].who,
-                            e.q[j].countable => e.q[j].sentRecordLens = e.q[j].sentLens>>]
+                            e.q[j].countable => e.q[j].sentRecordLens = e.q[j].sentLens>>] \o
+  [j \in DOMAIN e.kl |-> <<"model:secrets-log-is-not-the-installed-secrets:" \o e.kl[j].who, e.kl[j].written = e.kl[j].installed>>]
 
 Cl(e) == CASE e.ev = "step" -> ClStep(e)
            [] e.ev = "end"  -> ClEnd(e)
